@@ -63,6 +63,22 @@ static const char *BAD_JWKS[] = {
 static json_t *bad_jwk(Rng &r, int kidsel)
 {
 	std::string kid = kidsel >= 0 ? KID_POOL[(size_t)kidsel % ARRAY_LEN(KID_POOL)] : "nokid";
+	if (r.chance(1, 4)) {
+		// complete, valid key material and an alg member that is not a string: the provider has built its key object
+		// by the time the item is flagged
+		KeyRef k = doc_key(r, 1 + (int)r.below(4));
+		JwkOpts o;
+		o.priv = r.chance(1, 2);
+		o.has_alg = true;
+		o.alg_raw = r.chance(1, 2) ? "256" : "true";
+		if (kidsel >= 0) {
+			o.has_kid = true;
+			o.kid = kid;
+		}
+		json_t *j = jwk_export_json(*k, o);
+		json_object_set_new(j, "vf_expect", json_string("badalg"));
+		return j;
+	}
 	std::string t = strf(BAD_JWKS[r.below(ARRAY_LEN(BAD_JWKS))], kid.c_str());
 	json_t *j = json_loads(t.c_str(), 0, NULL);
 	if (kidsel < 0)
@@ -303,6 +319,11 @@ static ItemModel item_model(json_t *e)
 	json_t *x = json_object_get(e, "vf_expect");
 	const char *xs = x && json_is_string(x) ? json_string_value(x) : "any";
 	m.expect = !strcmp(xs, "good") ? 0 : !strcmp(xs, "bad") ? 1 : 2;
+	if (!strcmp(xs, "badalg")) {
+		// the defect of this element is its non-string alg member; damage in flight may have renamed or retyped it
+		json_t *alg = json_object_get(e, "alg");
+		m.expect = alg && !json_is_string(alg) && !json_is_null(alg) ? 1 : 2;
+	}
 	json_t *kty = json_object_get(e, "kty");
 	if (kty && json_is_string(kty)) {
 		const char *k = json_string_value(kty);
@@ -342,11 +363,13 @@ struct LoadResult {
 	bool parser_reached = true;
 	std::string via;
 	std::string faults;
+	bool alloc_fired = false;
 };
 
 static LoadResult do_load(Ctx &ctx, jwk_set_t *set, const Step &s, const std::string &doc, bool create)
 {
 	LoadResult lr;
+	int64_t fail_at = s.I("failalloc"); // one request of the installed allocator fails (never inside jansson's parser)
 	int via = (int)s.I("via");
 	if (create && via < 4)
 		via = via == 0 ? 4 : via == 1 ? 5 : via; // create variants for the string entry points
@@ -357,8 +380,9 @@ static LoadResult do_load(Ctx &ctx, jwk_set_t *set, const Step &s, const std::st
 	case 4: {
 		lr.via = via == 0 ? "jwks_load" : "jwks_create";
 		lr.D = doc.substr(0, doc.find('\0'));
-		Armed a;
+		Armed a(fail_at);
 		lr.set = via == 0 ? jwks_load(set, doc.c_str()) : jwks_create(doc.c_str());
+		lr.alloc_fired = a.fired() > 0;
 		break;
 	}
 	case 1:
@@ -379,8 +403,9 @@ static LoadResult do_load(Ctx &ctx, jwk_set_t *set, const Step &s, const std::st
 		memcpy(buf, doc.data(), len);
 		lr.D.assign(buf, len);
 		{
-			Armed a;
+			Armed a(fail_at);
 			lr.set = via == 1 ? jwks_load_strn(set, buf, len) : jwks_create_strn(buf, len);
+			lr.alloc_fired = a.fired() > 0;
 		}
 		free(buf);
 		break;
@@ -403,8 +428,9 @@ static LoadResult do_load(Ctx &ctx, jwk_set_t *set, const Step &s, const std::st
 		}
 		FILE *f = sim_fopen(&st);
 		{
-			Armed a;
+			Armed a(fail_at);
 			lr.set = create ? jwks_create_fromfp(f) : jwks_load_fromfp(set, f);
+			lr.alloc_fired = a.fired() > 0;
 		}
 		fclose(f);
 		lr.D = st.delivered;
@@ -450,8 +476,9 @@ static LoadResult do_load(Ctx &ctx, jwk_set_t *set, const Step &s, const std::st
 			lr.D = content;
 		}
 		{
-			Armed a;
+			Armed a(fail_at);
 			lr.set = create ? jwks_create_fromfile(path.c_str()) : jwks_load_fromfile(set, path.c_str());
+			lr.alloc_fired = a.fired() > 0;
 		}
 		unlink(path.c_str());
 		rmdir(path.c_str());
@@ -605,14 +632,17 @@ extern const Profile PROFILE_JWKSDOC = {"jwksdoc", jwksdoc_gen, jwksdoc_exec};
 static void keyring_gen(Rng &r, Plan &p, Tier tier, uint64_t index)
 {
 	p.cfg["reuse"] = Val((int64_t)(r.chance(1, 4) ? 1 : 0)); // allocator address reuse (see SimAlloc::reuse)
+	p.cfg["allocfaults"] = Val((int64_t)(r.chance(1, 4) ? 1 : 0)); // loads with one failing allocation (no leak judgement in such runs)
 	(void)index;
 	int n = (int)r.range(5, tier == QUICK ? 40 : 80);
 	for (int i = 0; i < n; i++) {
 		Step s;
 		int k = (int)r.below(20);
-		if (k < 6)
+		if (k < 6) {
 			s = gen_load(r, true);
-		else if (k < 8) {
+			if (p.C("allocfaults") && r.chance(1, 3))
+				s.set("failalloc", r.range(1, 160));
+		} else if (k < 8) {
 			s = Step("GET");
 			// in range, just past the end, and values that alias small indices when truncated to 32 or 31 bits
 			s.set("idx", r.chance(2, 3) ? r.range(0, 8) : (int64_t)r.pick(std::vector<int64_t>{-1, 1000000, (1LL << 32), (1LL << 32) + 1, (1LL << 32) + 2, (1LL << 31), (1LL << 31) + 1, (1LL << 33), INT64_MIN, INT64_MIN + 1, (1LL << 16), 255, 256}));
@@ -719,6 +749,7 @@ static void keyring_exec(Ctx &ctx)
 	const Plan &plan = *ctx.plan;
 	Ring rings[2];
 	ctx.nontrivial = plan.steps.size() >= 3;
+	g_alloc.spare_jansson = true;
 	for (int i = 0; i < 2; i++) {
 		Armed a;
 		rings[i].set = jwks_create(NULL);
@@ -736,6 +767,9 @@ static void keyring_exec(Ctx &ctx)
 			std::string doc = build_doc(spec_from_step(s));
 			size_t before = jwks_item_count(rg.set);
 			bool err_before = jwks_error(rg.set) != 0;
+			std::vector<const jwk_item_t *> held;
+			for (size_t q = 0; q < before; q++)
+				held.push_back(jwks_item_get(rg.set, q));
 			LoadResult lr = do_load(ctx, rg.set, s, doc, false);
 			LoadModel lm = load_model(lr.D);
 			op = strf("LOAD %s[%s] shape%lld", lr.via.c_str(), lr.faults.c_str(), (long long)s.I("shape") % 8);
@@ -743,6 +777,33 @@ static void keyring_exec(Ctx &ctx)
 				ctx.violation("C16", "load-returns-other-set", lr.via, strf("%s into an existing set returned %s", lr.via.c_str(), lr.set ? "a different pointer" : "NULL"));
 				if (lr.set && lr.set != rg.set)
 					jwks_free(lr.set);
+			} else if (lr.alloc_fired) {
+				// An allocation failed inside the load. What the list owes the application then: the items it held stay
+				// where they were (other objects point to them); whatever was appended is taken as it is.
+				ctx.count("fault:alloc_fail_in_keyring_load");
+				op += "[allocfail]";
+				size_t now_n = jwks_item_count(rg.set);
+				bool kept = now_n >= rg.items.size();
+				for (size_t q = 0; kept && q < held.size(); q++)
+					if (jwks_item_get(rg.set, q) != held[q])
+						kept = false;
+				if (!kept)
+					ctx.violation("C16", "load-destroys-items-already-in-the-list", lr.via,
+						      strf("%s with one allocation failing: the list held %zu items before the call, afterwards %zu, and not the same ones in the same places", lr.via.c_str(),
+							   rg.items.size(), now_n));
+				// resynchronise the model with what the library holds now
+				rg.items.clear();
+				for (size_t q = 0; q < now_n; q++) {
+					const jwk_item_t *it = jwks_item_get(rg.set, q);
+					RingItem ri;
+					ri.errored = it && jwks_item_error(it) != 0;
+					const char *kid = it ? jwks_item_kid(it) : NULL;
+					ri.has_kid = kid != NULL;
+					ri.kid = kid ? kid : "";
+					ri.kty = it ? (int)jwks_item_kty(it) : -1;
+					rg.items.push_back(ri);
+				}
+				rg.set_error = jwks_error(rg.set) != 0;
 			} else {
 				check_load(ctx, "C16", lr, lm, before, err_before);
 				if (!lr.parser_reached || !lm.json_ok)
